@@ -31,6 +31,7 @@ expr  = ["const", w, v] | ["int", v] | ["rd", path, w] | ["tmpv", name, w] | ["l
         | ["cmp", op, a, b] | ["ife", c, a, b] | ["zext"|"sext"|"trunc", a, w]
         | ["concat", [e...]] | ["red", "and"|"or"|"xor", a] | ["cast", w, a]
         | ["mkstruct", sname, [e...]] | ["fcall", fname, [arg e...], w] | ["param", pname, w]
+        | ["vslice", path, base_expr, N]        s.x[b : b + N] with a run-time base (b + N <= width always)
 """
 
 
@@ -97,7 +98,7 @@ def width(e):
     return e[1]
   if k == "mkstruct":
     return e[3] if len(e) > 3 else None
-  if k == "fcall":
+  if k in ("fcall", "vslice"):
     return e[3]
   if k == "param":
     return e[2]
@@ -140,6 +141,8 @@ def walk_exprs(e):
   elif k in ("mkstruct", "fcall"):
     for x in e[2]:
       yield from walk_exprs(x)
+  elif k == "vslice":
+    yield from walk_exprs(e[2])
 
 
 def walk_stmts(stmts):
